@@ -601,7 +601,6 @@ func ruleOrder(c *Ctx) {
 	}
 }
 
-
 // ruleArrayReaders: the array part of a table may be longer than the list it holds (t[#t] = nil leaves a
 // trailing nil slot). Library code must therefore go through Len()/RawGetInt; the only function outside
 // table.go that touches the slice is table.sort, which must sort array[:Len()].
@@ -652,7 +651,6 @@ func ruleArrayReaders(c *Ctx) {
 	}
 }
 
-
 // boundsSym: the path condition bounds v from below by a constant and from above by something (a
 // constant or another value): lo <= v <= X.
 func boundsSym(g *PCFG, at ssa.Instruction, v ssa.Value) (up ssa.Value, lo int64, hasUp, hasLo bool) {
@@ -685,7 +683,6 @@ func boundsSym(g *PCFG, at ssa.Instruction, v ssa.Value) (up ssa.Value, lo int64
 	}
 	return
 }
-
 
 // ruleTableLib: F58/F59. table.concat takes its range as given (no clamping helper between the
 // arguments and the loop) and does not push one value per element onto the limited value stack;
